@@ -221,7 +221,10 @@ Definition well_formed_b (signed : bool) (t : txn) : bool :=
 
 (* the same for transactions with tens of thousands of elements: duplicates are
    found through a set of injective codes instead of pairwise comparison *)
-Definition out_code (o : txout) : Z := (o_addr o * 2 ^ 64 + o_coins o) * 2 ^ 64 + o_hours o.
+(* Cantor-style pairing without the halving: injective on non-negative numbers and
+   short for small arguments (the trie's cost is the bit length of the key) *)
+Definition pair2 (x y : Z) : Z := (x + y) * (x + y + 1) + 2 * y.
+Definition out_code (o : txout) : Z := pair2 (pair2 (o_addr o) (o_coins o)) (o_hours o).
 Definition well_formed_fast_b (signed : bool) (t : txn) : bool :=
   wf_core (fun _ => distinct_count (t_ins t) =? len (t_ins t))
           (fun _ => distinct_count (map out_code (t_outs t)) =? len (t_outs t)) signed t.
